@@ -182,10 +182,11 @@ Qed.
 
 (* ------------------------------------------------------------------ the induction *)
 Section Run.
-  Hypothesis HBF : bf_node_statement.
-  Hypothesis HSB : sb_node_statement.
+  Variable ok : cache -> Prop.
+  Hypothesis HBF : bf_node_statement_for ok.
+  Hypothesis HSB : sb_node_statement_for ok.
 
-  Theorem sim4_run : forall pr old,
+  Theorem sim4_run : forall pr old, ok old ->
     AllTargets tgtP pr -> QueriesOk pr -> WfArgs pr -> TargetsClear old pr -> TargetsApart old pr ->
     forall st, NoNest st pr ->
     forall tg pend subs subs' T W w s w' r l s' r' pend' l',
@@ -193,7 +194,7 @@ Section Run.
       run pr tg subs w = (w', (r, l)) -> core_run pr tg pend subs' s = (s', (r', pend', l')) ->
       run_post st tg W w w' r l s' r' pend' l'.
   Proof.
-    intros pr old.
+    intros pr old Hok.
     induction pr as [v | e | stale q k IH | c k IH | stale p c f a kw fn IHfn k IHk | stale f a kw fn IHfn k IHk];
       intros Hat Hqk Hwa Hcl Hap st Hnn tg pend subs subs' T W w s w' r l s' r' pend' l' Hold HS HC Hsubs H1 H2; subst old.
     - cbn [run core_run] in H1, H2. inversion H1; inversion H2; subst.
@@ -236,8 +237,8 @@ Section Run.
       rewrite core_run_Write in H2. cbn [run] in H1.
       destruct tg as [p|]; [|apply (IH Hat' Hqk' Hwa' Hcl' Hap' st Hnn' None pend subs subs' T W w s w' r l s' r' pend' l' eq_refl HS HC Hsubs H1 H2)].
       destruct (c4_tg _ _ _ _ HC p eq_refl) as [Hin Htg].
-      assert (Hok: path_ok p = true) by (unfold tgtP, tgt_ok in Htg; apply andb_true_iff in Htg; apply Htg).
-      rewrite Hok in H2.
+      assert (Hpok: path_ok p = true) by (unfold tgtP, tgt_ok in Htg; apply andb_true_iff in Htg; apply Htg).
+      rewrite Hpok in H2.
       destruct (write_succeeds st pend T W w s p c HS HC) as [fs' Ew]. rewrite Ew in H1.
       destruct (sim4_write st pend T W w s p c fs' HS HC Ew) as (HS2 & HC2 & Hfr).
       destruct (IH Hat' Hqk' Hwa' Hcl' Hap' st Hnn' (Some p) (Some c) subs subs' T W
@@ -264,7 +265,7 @@ Section Run.
         apply (IHfn p sa skw (Hatf p sa skw) (Hqf p sa skw) (Hwf p sa skw) (Hclf p sa skw) (Hapf p sa skw) (p :: st) (Hnf p sa skw)
                     (Some p) None [] [] T0 W0 w0 s0 w3 res l3 s3 res' pend3 l3'); auto. exact I. }
       assert (Hconds: tgt_conds st (w_old w) p) by (repeat split; assumption).
-      destruct (HBF st p c f a kw fn T W w s tg pend w1 r1 o Hconds Hbody HS HC E1 s1 r1' o' E2)
+      destruct (HBF st p c f a kw fn T W w s tg pend w1 r1 o Hok Hconds Hbody HS HC E1 s1 r1' o' E2)
         as (T1 & W1 & B1 & B2 & B3 & B4 & B5 & B6 & B7).
       subst r1'.
       destruct (IHk r1 (Hatk r1) (Hqkk r1) (Hwk r1) (Hclk r1) (Hapk r1) st (Hnk r1) tg pend _ _ T1 W1 w1 s1 w' r l s' r' pend' l'
@@ -290,7 +291,7 @@ Section Run.
       { intros sa skw T0 W0 w0 s0 w3 res l3 s3 res' pend3 l3' Ho0 HS0 HC0 X1 X2.
         apply (IHfn sa skw (Hatf sa skw) (Hqf sa skw) (Hwf sa skw) (Hclf sa skw) (Hapf sa skw) st (Hnf sa skw)
                     None None [] [] T0 W0 w0 s0 w3 res l3 s3 res' pend3 l3'); auto. exact I. }
-      destruct (HSB st f a kw fn T W w s tg pend w1 r1 o Hwa1 Hwa2 Hbody HS HC E1 s1 r1' o' E2)
+      destruct (HSB st f a kw fn T W w s tg pend w1 r1 o Hok Hwa1 Hwa2 Hbody HS HC E1 s1 r1' o' E2)
         as (T1 & W1 & B1 & B2 & B3 & B4 & B5 & B6 & B7).
       subst r1'.
       destruct (IHk r1 (Hatk r1) (Hqkk r1) (Hwk r1) (Hclk r1) (Hapk r1) st (Hnk r1) tg pend _ _ T1 W1 w1 s1 w' r l s' r' pend' l'
